@@ -24,3 +24,68 @@ pub mod c04;
 pub mod c18;
 pub mod fuzzdec;
 pub mod fuzz;
+
+// ------------------------------------------------------------------------------------------
+// page-allocation budget (C15): des-cqueue requests its pages as blocks whose size equals their alignment. A defect
+// that makes the allocator request pages without end would otherwise only show as a hang; with a budget armed, the
+// request that exceeds it is refused (null), which des-cqueue does not survive - the worker dies by a signal and the
+// engine reports the case. Deterministic: a count of allocations, no clock involved.
+pub mod page_budget {
+    use std::alloc::{GlobalAlloc, Layout, System};
+    use std::cell::Cell;
+
+    thread_local! {
+        static LEFT: Cell<i64> = const { Cell::new(i64::MAX) };
+    }
+
+    /// Arms the budget for the calling thread (`None` disarms it).
+    pub fn arm(pages: Option<i64>) {
+        LEFT.with(|l| l.set(pages.unwrap_or(i64::MAX)));
+    }
+
+    pub struct Counting;
+
+    fn page_like(layout: &Layout) -> bool {
+        layout.align() >= 256 && layout.size() == layout.align()
+    }
+
+    fn take() -> bool {
+        LEFT.try_with(|l| {
+            let v = l.get();
+            if v == i64::MAX {
+                true
+            } else if v <= 0 {
+                false
+            } else {
+                l.set(v - 1);
+                true
+            }
+        })
+        .unwrap_or(true)
+    }
+
+    // SAFETY: delegates to the system allocator; refusing a request by returning null is permitted by the contract
+    unsafe impl GlobalAlloc for Counting {
+        unsafe fn alloc(&self, layout: Layout) -> *mut u8 {
+            if page_like(&layout) && !take() {
+                return std::ptr::null_mut();
+            }
+            System.alloc(layout)
+        }
+        unsafe fn alloc_zeroed(&self, layout: Layout) -> *mut u8 {
+            if page_like(&layout) && !take() {
+                return std::ptr::null_mut();
+            }
+            System.alloc_zeroed(layout)
+        }
+        unsafe fn dealloc(&self, ptr: *mut u8, layout: Layout) {
+            System.dealloc(ptr, layout)
+        }
+        unsafe fn realloc(&self, ptr: *mut u8, layout: Layout, new_size: usize) -> *mut u8 {
+            System.realloc(ptr, layout, new_size)
+        }
+    }
+}
+
+#[global_allocator]
+static GLOBAL: page_budget::Counting = page_budget::Counting;
